@@ -11,8 +11,8 @@ KwOf(e) == [n \in (DOMAIN e.kw) \ {"_"} |-> e.kw[n]]
 G2(e) == IF e.g >= 0 THEN e.g ELSE gen + Len(IdSlots(e.c))
 
 Step(e) ==
-    CASE e.op = "New" -> IF Len(e.ids) = Len(IdSlots(e.c)) THEN NewIds(e.c, e.pos, KwOf(e), e.ids, G2(e))
-                         ELSE New(e.c, e.pos, KwOf(e))
+    CASE e.op = "New" -> IF Len(e.ids) = Len(IdSlots(e.c)) THEN NewCall(e.c, e.pos, KwOf(e), e.ids, G2(e))
+                         ELSE NewC(e.c, e.pos, KwOf(e))
       [] e.op = "NewUnknown" -> NewUnknown(e.c) /\ UNCHANGED mvars
       [] e.op = "Relate" -> Relate(e.x[1], e.x[2], e.y[1], e.y[2], e.rel, e.ph)
       [] e.op = "Unrelate" -> Unrelate(e.x[1], e.x[2], e.y[1], e.y[2], e.rel, e.ph)
